@@ -235,7 +235,7 @@ Qed.
 Lemma initialize_empty_mirrors mr m s' :
   initialize (Storage [] []) mr = (inl m, s') -> mirrors (m_conf m) s'.
 Proof.
-  unfold initialize. cbn [load_rules s_rules fold_left la_rules la_save la_delete s_groups].
+  unfold initialize, load_repairs. cbn [load_rules s_rules fold_left filter la_rules la_save la_delete s_groups].
   destruct (build_rule_list _) as [e|rl] eqn:B; intros H; inversion H; subst. cbn [m_conf].
   constructor; cbn; try reflexivity. repeat constructor.
 Qed.
@@ -293,7 +293,7 @@ Proof.
   assert (G : forall ups st, forallb fault_free_update ups = true -> st_mirrors st -> st_mirrors (run_state step st ups)).
   { clear. induction ups as [|o rest IH]; intros st Hff Hst; [exact Hst|].
     cbn in Hff. apply andb_true_iff in Hff as [Ho Hrest]. cbn [run_state]. apply IH; [exact Hrest|].
-    destruct o as [| u f w | u w | |]; try discriminate.
+    destruct o as [| u f w | u w | | | |]; try discriminate.
     - destruct f; [discriminate|]. apply step_update_mirrors; exact Hst.
     - apply step_update_mirrors; exact Hst. }
   apply G; [exact Hff|].
